@@ -13,7 +13,7 @@ import (
 )
 
 func init() {
-	for _, id := range []string{"C01", "C02", "C03", "C04", "C05", "C06"} {
+	for _, id := range []string{"C01", "C02", "C03", "C04", "C05", "C06", "C09", "C10"} {
 		id := id
 		core.Register(id, "model_checking", func(c *core.Ctx) error { return runTL1(c, id) })
 	}
@@ -79,6 +79,8 @@ type valPayload struct {
 	Alt    *JT    `json:"alt"`
 	M      string `json:"m"`
 	Bad    bool   `json:"bad"`
+	From   *encs  `json:"from"`
+	To     *encs  `json:"to"`
 	Boxed  bool   `json:"boxed"`
 	B      []int  `json:"b"`
 	Dec    struct {
@@ -87,6 +89,13 @@ type valPayload struct {
 		Consumed int   `json:"consumed"`
 		Re       []int `json:"re"`
 	} `json:"dec"`
+}
+
+type encs struct {
+	TL1  []int `json:"tl1"`
+	TL1B []int `json:"tl1b"`
+	TL2  []int `json:"tl2"`
+	JSON *JT   `json:"json"`
 }
 
 func hexs(a []int) string {
@@ -147,7 +156,7 @@ func runCorpusTL1(c *core.Ctx, prop string, cp Corpus, k, kmut, kjson int) error
 	}
 	c.Logf("corpus %s: %d top-level TL1 types, K=%d KMut=%d", cp.Name, len(tops), k, kmut)
 	var firstErr error
-	nVal, nBytes, nAlt, acc, rej, unk := 0, 0, 0, 0, 0, 0
+	nVal, nBytes, nAlt, nEdge, acc, rej, unk := 0, 0, 0, 0, 0, 0, 0
 	onEmit := func(raw json.RawMessage) {
 		if firstErr != nil {
 			return
@@ -181,6 +190,25 @@ func runCorpusTL1(c *core.Ctx, prop string, cp Corpus, k, kmut, kjson int) error
 			}
 			if nVal%211 == 1 {
 				c.Sample(map[string]any{"corpus": cp.Name, "type": p.Tn, "tl1": hexs(p.TL1), "tl1_boxed": hexs(p.TL1B), "tl2": hexs(p.TL2)})
+			}
+			return
+		}
+		if p.Kind == "edge" {
+			nEdge++
+			if prop != "C09" {
+				return
+			}
+			fs, err := replayEdge(c, b, &p, nEdge)
+			if err != nil {
+				firstErr = err
+				return
+			}
+			for _, f := range fs {
+				c.Violate(fmt.Sprintf("%s/%s/%s/%s", f.class, cp.Name, p.Tn, f.key), fmt.Sprintf("type %s: %s", p.Tn, f.what),
+					map[string]any{"corpus": cp, "payload": p})
+			}
+			if nEdge%499 == 1 {
+				c.Sample(map[string]any{"corpus": cp.Name, "type": p.Tn, "history": "decode " + hexs(p.From.TL1) + " then " + hexs(p.To.TL1) + " into one object"})
 			}
 			return
 		}
@@ -252,7 +280,7 @@ func runCorpusTL1(c *core.Ctx, prop string, cp Corpus, k, kmut, kjson int) error
 	res, err := c.TLC(core.TLCOpts{Module: "MC_Codec", Cfg: "MC_Codec.cfg", Workers: 8, Timeout: 20 * time.Minute,
 		Files:  map[string][]byte{"SchemaData.tla": b.SchemaModule(tops)},
 		OnEmit: onEmit,
-		Consts: map[string]string{"SANITY": tlaBool(cp.Sanity), "MAXLEN": "2", "LONGSTR": "{}", "K": strconv.Itoa(k), "KMUT": strconv.Itoa(kmut), "KJSON": strconv.Itoa(kjson)}})
+		Consts: map[string]string{"SANITY": tlaBool(cp.Sanity), "MAXLEN": "2", "LONGSTR": "{}", "K": strconv.Itoa(k), "KMUT": strconv.Itoa(kmut), "KJSON": strconv.Itoa(kjson), "EDGES": tlaBool(prop == "C09")}})
 	if err != nil {
 		return err
 	}
@@ -270,6 +298,7 @@ func runCorpusTL1(c *core.Ctx, prop string, cp Corpus, k, kmut, kjson int) error
 	c.Add("values", nVal)
 	c.Add("byte_strings", nBytes)
 	c.Add("alternative_json_forms", nAlt)
+	c.Add("history_edges", nEdge)
 	c.Add("impl_accepted", acc)
 	c.Add("impl_rejected", rej)
 	c.Add("outside_model", unk)
@@ -302,6 +331,8 @@ var classOf = map[string]map[string]bool{
 	"C04": {"conv": true},
 	"C05": {"json": true},
 	"C06": {"jsonalt": true},
+	"C09": {"reuse": true},
+	"C10": {"bytesvar": true},
 }
 
 func wantVal(prop string, k int) bool {
@@ -380,6 +411,143 @@ func replayVal(c *core.Ctx, b *Built, p *valPayload) ([]finding, error) {
 			}
 			if s.Dump.JSON != jsonFromTL1 {
 				add("conv", "json-differs/"+hexs(p.TL1), fmt.Sprintf("JSON after TL1 decode %s, after TL2 decode %s", jsonFromTL1, s.Dump.JSON))
+			}
+		}
+	}
+	if b.Corpus.BytesVers != "" {
+		bytesVariantChecks(c, b, p, add)
+	}
+	return fs, nil
+}
+
+// bytesVariantChecks (C10): the []byte variant, given the same inputs, must produce the
+// same outputs as the specification prescribes for the string variant.
+func bytesVariantChecks(c *core.Ctx, b *Built, p *valPayload, add func(class, key, what string)) {
+	type inp struct {
+		op   string
+		step map[string]any
+	}
+	var ins []inp
+	ins = append(ins, inp{"read1", map[string]any{"op": "read1", "in": p.TL1}})
+	if p.HasTL2 {
+		ins = append(ins, inp{"read2", map[string]any{"op": "read2", "in": p.TL2}})
+	}
+	if p.JSON != nil {
+		var sb strings.Builder
+		if p.JSON.Render(&sb) == nil {
+			ins = append(ins, inp{"readj", map[string]any{"op": "readj", "text": sb.String()}})
+		}
+	}
+	for _, in := range ins {
+		r, err := b.script(p.Tn, true, in.step)
+		if err != nil {
+			add("bytesvar", in.op+"/"+hexs(p.TL1), "driver: "+err.Error())
+			return
+		}
+		s := r.Steps[0]
+		c.Add("evaluations", 1)
+		key := in.op + "/" + hexs(p.TL1)
+		switch {
+		case s.Panic != "":
+			add("bytesvar", key, "[]byte variant panics: "+s.Panic)
+		case s.Err != "":
+			add("bytesvar", key, fmt.Sprintf("[]byte variant rejects %s of a valid input: %s", in.op, s.Err))
+		default:
+			if s.Dump.TL1Err != "" || !eqInts(s.Dump.TL1, p.TL1) {
+				add("bytesvar", key, fmt.Sprintf("[]byte variant after %s writes TL1 %s %s, string variant/spec %s", in.op, hexs(s.Dump.TL1), s.Dump.TL1Err, hexs(p.TL1)))
+			}
+			if p.HasTL2 && s.Dump.HasTL2 && !eqInts(s.Dump.TL2, p.TL2) {
+				add("bytesvar", key, fmt.Sprintf("[]byte variant after %s writes TL2 %s, string variant/spec %s", in.op, hexs(s.Dump.TL2), hexs(p.TL2)))
+			}
+			if p.JSON != nil {
+				if got, err := parseJSON(s.Dump.JSON); err != nil || p.JSON.Match(got, "$") != nil {
+					add("bytesvar", key, fmt.Sprintf("[]byte variant after %s writes JSON %s which differs from the string variant/spec", in.op, s.Dump.JSON))
+				}
+			}
+		}
+	}
+}
+
+// replayEdge (C09): decode `from`, then `to`, into ONE object (in formats chosen round-robin),
+// also with a failing read in between, and Reset; the result must be what the spec prescribes
+// for `to` alone, i.e. what a fresh object gives.
+func replayEdge(c *core.Ctx, b *Built, p *valPayload, n int) ([]finding, error) {
+	var fs []finding
+	mk := func(e *encs, f int) (map[string]any, int) {
+		switch {
+		case f == 1:
+			return map[string]any{"op": "read1b", "in": e.TL1B}, len(e.TL1B)
+		case f == 2 && p.HasTL2:
+			return map[string]any{"op": "read2", "in": e.TL2}, len(e.TL2)
+		case f == 3 && e.JSON != nil:
+			var sb strings.Builder
+			if e.JSON.Render(&sb) == nil {
+				return map[string]any{"op": "readj", "text": sb.String()}, -1
+			}
+		}
+		return map[string]any{"op": "read1", "in": e.TL1}, len(e.TL1)
+	}
+	f1, f2 := (n+int(c.Seed))%4, ((n+int(c.Seed))/4)%4
+	s1, _ := mk(p.From, f1)
+	s2, want2 := mk(p.To, f2)
+	for _, bytesVariant := range []bool{false, true} {
+		if bytesVariant && b.Corpus.BytesVers == "" {
+			continue
+		}
+		steps := []map[string]any{s1, s2}
+		// a failing read in between (truncated input), then the good one again
+		if in, ok := s2["in"].([]int); ok && len(in) > 0 {
+			steps = []map[string]any{s1, {"op": s2["op"], "in": in[:len(in)-1]}, s2}
+		}
+		steps = append(steps, map[string]any{"op": "reset"})
+		r, err := b.script(p.Tn, bytesVariant, steps...)
+		if err != nil {
+			return nil, err
+		}
+		fresh, err := b.script(p.Tn, bytesVariant, map[string]any{"op": "new"})
+		if err != nil {
+			return nil, err
+		}
+		c.Add("evaluations", 1)
+		key := fmt.Sprintf("%v/%v->%v/%s->%s", bytesVariant, s1["op"], s2["op"], hexs(p.From.TL1), hexs(p.To.TL1))
+		last := r.Steps[len(r.Steps)-2]
+		rst := r.Steps[len(r.Steps)-1]
+		for _, st := range r.Steps {
+			if st.Panic != "" {
+				fs = append(fs, finding{"reuse", key, "panic: " + st.Panic})
+			}
+		}
+		if len(r.Steps) == 4 {
+			mid := r.Steps[1]
+			fr, err := b.script(p.Tn, bytesVariant, steps[1])
+			if err != nil {
+				return nil, err
+			}
+			if (mid.Err == "") != (fr.Steps[0].Err == "") {
+				fs = append(fs, finding{"reuse", key, fmt.Sprintf("truncated input: reused object err=%q, fresh object err=%q", mid.Err, fr.Steps[0].Err)})
+			}
+		}
+		switch {
+		case last.Err != "":
+			fs = append(fs, finding{"reuse", key, fmt.Sprintf("valid input rejected by the reused object: %s", last.Err)})
+		case last.Dump != nil:
+			if want2 >= 0 && last.Consumed != want2 {
+				fs = append(fs, finding{"reuse", key, fmt.Sprintf("reused object consumed %d of %d", last.Consumed, want2)})
+			}
+			if last.Dump.TL1Err != "" || !eqInts(last.Dump.TL1, p.To.TL1) {
+				fs = append(fs, finding{"reuse", key, fmt.Sprintf("reused object holds TL1 %s %s, a fresh one %s", hexs(last.Dump.TL1), last.Dump.TL1Err, hexs(p.To.TL1))})
+			}
+			if p.HasTL2 && last.Dump.HasTL2 && !eqInts(last.Dump.TL2, p.To.TL2) {
+				fs = append(fs, finding{"reuse", key, fmt.Sprintf("reused object holds TL2 %s, a fresh one %s", hexs(last.Dump.TL2), hexs(p.To.TL2))})
+			}
+			if got, err := parseJSON(last.Dump.JSON); err != nil || p.To.JSON.Match(got, "$") != nil {
+				fs = append(fs, finding{"reuse", key, fmt.Sprintf("reused object prints JSON %s, not the fresh object's", last.Dump.JSON)})
+			}
+		}
+		if rst.Err == "" && rst.Dump != nil && fresh.Steps[0].Dump != nil {
+			a, f := rst.Dump, fresh.Steps[0].Dump
+			if !eqInts(a.TL1, f.TL1) || !eqInts(a.TL2, f.TL2) || a.JSON != f.JSON || a.TL1Err != f.TL1Err {
+				fs = append(fs, finding{"reuse", key + "/reset", fmt.Sprintf("after Reset the object writes %s / %s / %s, a fresh one %s / %s / %s", hexs(a.TL1), hexs(a.TL2), a.JSON, hexs(f.TL1), hexs(f.TL2), f.JSON)})
 			}
 		}
 	}
